@@ -33,6 +33,7 @@ import time
 import numpy as np
 
 import c02gen as cf
+import lightworks as lw
 import circgen as cg
 from core import CIRCLE, PYTH, Ctx, ddmin, mat_close, parse_mat
 
@@ -266,6 +267,79 @@ def _has(prog: list, *names: str) -> bool:
     return all(any(op[0] == n for op in prog) for n in names)
 
 
+def plus_probe(ctx: Ctx, rng) -> None:
+    """`a + b` when an operand owns heralded modes (declared directly, or private ancillas acquired through add() at
+    depth 1-2, grouped or not): the library refuses (NotImplementedError); whatever it does, heralded modes must stay
+    private ancillas carrying their photon number - a sum that comes back with fewer heralds than its operands own, or
+    with more user modes, has turned ancillas into ordinary modes.  Implementation only (the model has no `+`)."""
+    n = rng.choice([2, 3, 4])
+
+    def heralded_sub():
+        sub = lw.Circuit(3)
+        sub.bs(0)
+        sub.bs(1)
+        k = rng.choice([0, 1])
+        sub.herald(k, rng.choice([0, 2]))
+        return sub
+
+    def operand(kind: str):
+        c = lw.Circuit(n)
+        c.bs(0)
+        if kind == "plain":
+            return c
+        if kind == "declared":
+            c.herald(rng.choice([0, 1]), rng.randrange(n))
+            return c
+        sub = heralded_sub()
+        host = lw.Circuit(n + 1)   # the sub-circuit has 2 user modes: placed at a random user mode of an (n+1)-mode host
+        host.bs(0)
+        if kind == "nested":
+            mid = lw.Circuit(2)
+            mid.add(sub, 0, group=rng.random() < 0.5)
+            host.add(mid, rng.randrange(n), group=rng.random() < 0.5)
+        else:
+            host.add(sub, rng.randrange(n), group=(kind == "added_grouped"))
+        return host
+
+    kinds = ["plain", "declared", "added_grouped", "added_ungrouped", "nested"]
+    ka, kb = rng.choice(kinds[1:]), rng.choice(kinds)
+    if rng.random() < 0.5:
+        ka, kb = kb, ka
+    a, b = operand(ka), operand(kb)
+    if a.n_modes != b.n_modes:
+        # bring both to the same full width with plain modes (heralded hosts have n+2 modes, plain ones n)
+        width = max(a.n_modes, b.n_modes)
+        for which, c in (("a", a), ("b", b)):
+            if c.n_modes < width:
+                wide = lw.Circuit(width)
+                wide.add(c, 0, group=False)
+                if which == "a":
+                    a = wide
+                else:
+                    b = wide
+    ctx.count(f"plus:{ka}+{kb}")
+    own = sum(len(c.heralds["input"]) for c in (a, b))
+    before = [(c.n_modes, c.input_modes, json.dumps(c.heralds, sort_keys=True, default=str)) for c in (a, b)]
+    try:
+        r = a + b
+    except Exception as e:  # noqa: BLE001
+        ctx.count("plus:refused:" + type(e).__name__)
+        r = None
+    desc = {"plus_probe": {"left": ka, "right": kb, "n": n}}
+    if r is not None:
+        if own and (len(r.heralds["input"]) < max(len(a.heralds["input"]), len(b.heralds["input"]))
+                    or r.input_modes > min(a.input_modes, b.input_modes)):
+            ctx.violation(f"oracle: `a + b` with operands owning heralded modes ({ka} + {kb}) returned a circuit with "
+                          f"heralds {r.heralds} and {r.input_modes} user modes; the operands have heralds "
+                          f"{a.heralds} / {b.heralds} and {a.input_modes} / {b.input_modes} user modes: heralded modes "
+                          "did not stay private ancillas", desc, sig={"kind": "plus-heralds"})
+            return
+    after = [(c.n_modes, c.input_modes, json.dumps(c.heralds, sort_keys=True, default=str)) for c in (a, b)]
+    if before != after:
+        ctx.violation(f"oracle: `a + b` ({ka} + {kb}) changed an operand's modes / heralds", desc, sig={"kind": "plus-operand"})
+    ctx.case(json.dumps(["plus", ka, kb, n]), True)
+
+
 def run(ctx: Ctx) -> None:
     ctx.rule = ("(1) directed histories: a parent acquires private ancillas in each of "
                 f"{len(cf.LAYOUTS)} layouts (1-3 ancillas, ascending / descending placement, adjacent, at position 0, "
@@ -293,6 +367,10 @@ def run(ctx: Ctx) -> None:
             for g2 in (False, True):
                 prog, ids = cf.mixed_group_nesting(ctx, hrng, g1, g2, variant)
                 check_program(ctx, prog, ids, False, False, "nesting")
+
+    prng = random.Random(f"C02-plus-{seed}")
+    for _ in range(ctx.n(60, 600)):
+        plus_probe(ctx, prng)
 
     t1 = time.time()
     # -- 2. randomised histories
